@@ -980,6 +980,24 @@ def build_item(cur, log):
             hdr = text[toks[lk].start:toks[lo_].start]
             m = re.match(r"for\s+\(\s*(\w+)\s*,\s*(\w+)\s*\)\s+in\s+(.+?)\.iter_mut\(\)\.enumerate\(\)\s*$", hdr, re.S)
             m2 = re.match(r"for\s+(\w+)\s+in\s+(.+?)\.iter_mut\(\)\s*$", hdr, re.S)
+            m5 = re.match(r"for\s+(\w+)\s+in\s+(.+?)\.iter_mut\(\)\.rev\(\)\s*$", hdr, re.S)
+            if m5:
+                # descending: `for b in X.iter_mut().rev() { ..*b.. }` -> `let mut k = X.len(); while k > 0 { k -= 1; ..X[k].. }`
+                bv, xe = m5.group(1), m5.group(2)
+                kv = f"k__{n_}"
+                last = prev_code(toks, lo_)
+                ed.replace(toks[lk].start, toks[last].end, f"let mut {kv}: usize = {xe}.len(); while {kv} > 0")
+                ed.insert(toks[lo_].end, f" {kv} -= 1;")
+                q = lo_ + 1
+                while q < lc_:
+                    if toks[q].kind == "punct" and toks[q].text == "*":
+                        nx = next_code(toks, q)
+                        if nx is not None and toks[nx].kind == "ident" and toks[nx].text == bv:
+                            ed.replace(toks[q].start, toks[nx].end, f"{xe}[{kv}]")
+                            q = nx + 1; continue
+                    q += 1
+                log.append(("R3", where, hdr.strip()))
+                continue
             if m: iv, bv, xe = m.group(1), m.group(2), m.group(3)
             elif m2: iv, bv, xe = None, m2.group(1), m2.group(2)
             else: continue
